@@ -402,10 +402,22 @@ pub fn world_to_tile(world_x: f32, world_y: f32) -> (u32, u32) {
     const MAP_SIZE: f32 = 533.333_3;
     const MAP_OFFSET: f32 = 32.0 * MAP_SIZE;
 
-    let tile_x = ((MAP_OFFSET - world_y) / MAP_SIZE) as u32;
-    let tile_y = ((MAP_OFFSET - world_x) / MAP_SIZE) as u32;
+    // `tile_to_world` returns a tile's corner, which lies exactly on a grid line. In f32 the
+    // quotient for such a point can come out a hair below the integer (e.g. 3.9999998 for
+    // tile 4), so snap values within float tolerance of a grid line before truncating.
+    fn to_tile(offset: f32) -> u32 {
+        const GRID_TOLERANCE: f32 = 1.0e-4;
+        let t = offset / MAP_SIZE;
+        let nearest = t.round();
+        let snapped = if (t - nearest).abs() < GRID_TOLERANCE {
+            nearest
+        } else {
+            t.floor()
+        };
+        (snapped as u32).min(63)
+    }
 
-    (tile_x.min(63), tile_y.min(63))
+    (to_tile(MAP_OFFSET - world_y), to_tile(MAP_OFFSET - world_x))
 }
 
 #[cfg(test)]
